@@ -22,16 +22,22 @@ Triples == \A c \in V : /\ InRangeEq(c, a, x) /\ InWindowEq(c, a, x)
                         /\ (InWindow(c, a, x) <=> (x > 0 /\ (c = a \/ InRange(c, a, Add(a, x)))))
 Quads == \A b, y \in V :
             LET sh   == (wa[b] \cap wx[y]) # {}        \* ShareSet(a, b, x, y): the windows share a number
+                shw  == ShareW(a, b, x, y)
                 impl == OverlapImpl(a, b, x, y)
-                f    == F2b(a, b, x, y)
+                ends == EndsAhead(a, b, x, y)
+                f    == IF b = 0 \/ y = 0 THEN ends ELSE shw /\ ~ends     \* F2b(a, b, x, y), see QuadsLit
             IN  /\ (impl # sh) <=> f                             \* OverlapExact
-                /\ sh <=> ShareW(a, b, x, y)                     \* ShareLemma
+                /\ sh <=> shw                                    \* ShareLemma
                 /\ R2(b, y) => ~f
                 /\ R1(a, b, x, y) => ~f
                 /\ (f /\ b > 0 /\ y > 0) => b + y > H + 1         \* WideNeedsExtent
-(* the set form used above is the literal definition (\E k \in V : ...) *)
+(* the set form and the unfolded F2b used above are the literal definitions (\E k \in V : ..., F2b) *)
 QuadsLit == /\ \A s \in V : wa[s] = Window(a, s) /\ wx[s] = Window(x, s)
-            /\ \A b, y \in V : Share(a, b, x, y) <=> ((wa[b] \cap wx[y]) # {})
+            /\ \A b, y \in V :
+                  /\ Share(a, b, x, y) <=> ((wa[b] \cap wx[y]) # {})
+                  /\ F2b(a, b, x, y) <=> (IF b = 0 \/ y = 0 THEN EndsAhead(a, b, x, y)
+                                                            ELSE ShareW(a, b, x, y) /\ ~EndsAhead(a, b, x, y))
+                  /\ OverlapExactW(a, b, x, y) /\ RegionsOK(a, b, x, y)
 (* R2 is exact in the sizes: for every other (b, y) except (0,1), (1,0) some placement is in F2b
    (the converse, R2 => ~F2b for every placement, is part of Quads).  Evaluated once, in the state a = 0, st = 0. *)
 SizesExact == (st = 0 /\ a = 0) =>
